@@ -231,6 +231,21 @@ impl Inst {
             ev["res"] = json!(self.open());
             return;
         }
+        if name == "reopen_raw" {
+            // drop + Installation::open without initialize()
+            self.inst = None;
+            ev["res"] = json!(match Installation::open(self.root.clone()) {
+                Ok(i) => {
+                    self.inst = Some(Arc::new(i));
+                    "ok".to_string()
+                }
+                Err(e) => {
+                    self.dead = kind(&e);
+                    self.dead.clone()
+                }
+            });
+            return;
+        }
         if name == "cut" || name == "rmdata" {
             // the environment shortens / deletes the data file while the installation is closed
             let hit: Vec<String> = if name == "cut" {
@@ -415,7 +430,7 @@ fn build_root(t: &[Payload], spec: &Value) -> Result<Vec<u8>, String> {
     let mut b = RootBuilder::new(RootVersion::from_u32(spec["ver"].as_u64().unwrap_or(2) as u32).expect("root version"));
     for e in spec["files"].as_array().expect("root files") {
         let fd = e[0].as_u64().unwrap() as u32;
-        let path = e[1].as_str().map(|p| concrete_path(t, p));
+        let path = e[1].as_str().filter(|p| *p != "-").map(|p| concrete_path(t, p));
         let target = t.iter().find(|p| p.name == e[2].as_str().unwrap()).expect("driver: root target");
         let flags = if path.is_some() { ContentFlags::INSTALL } else { ContentFlags::INSTALL | ContentFlags::NO_NAME_HASH };
         b.add_file(FileDataId::new(fd), ContentKey::from_bytes(target.ck), path.as_deref(), LocaleFlags::new(LocaleFlags::ENUS), ContentFlags::new(flags));
@@ -455,7 +470,7 @@ fn run_inst(prog: &Value, em: &Emit) {
                                          "bucket": IndexManager::bucket_for_key(&EncodingKey::from_bytes(p.ek))}));
     }
     let r0 = guarded(|| w.open()).unwrap_or_else(|m| format!("panic: {m}"));
-    em.ev(json!({"op": "new", "fam": "inst", "pl": pl, "roots": prog["roots"], "encs": prog["encs"], "res": r0}));
+    em.ev(json!({"op": "new", "fam": "inst", "pl": pl, "payloads": prog["payloads"], "roots": prog["roots"], "encs": prog["encs"], "paths": prog["paths"], "res": r0}));
     let mut seq = 0u64;
     let mut ops: Vec<Value> = prog["ops"].as_array().cloned().unwrap_or_default();
     if prog["audit"] != json!(false) {
@@ -525,7 +540,14 @@ fn run_stor(prog: &Value, em: &Emit) {
     }
     let mut base_listing = vec![];
     digest_dir(&base, Path::new(""), &mut base_listing);
-    em.ev(json!({"op": "new", "fam": "stor", "pl": pl, "res": "ok", "base0": base_listing,
+    let outside_of = |dir: &Path| -> Vec<String> {
+        let mut ol = vec![];
+        digest_dir(dir, Path::new(""), &mut ol);
+        ol.into_iter().filter(|x| !x.starts_with("outer/base/")).collect()
+    };
+    let abs = dir.path().join("absout").display().to_string();
+    let real_name = |n: &str| n.replace("<abs>", &abs);
+    em.ev(json!({"op": "new", "fam": "stor", "pl": pl, "payloads": prog["payloads"], "res": "ok", "base0": base_listing, "outside0": outside_of(dir.path()),
                  "paths": {"data": storage.data_path() == base.join("data"), "indices": storage.indices_path() == base.join("indices"),
                            "residency": storage.residency_path() == base.join("residency"), "ecache": storage.ecache_path() == base.join("ecache"),
                            "hardlink": storage.hardlink_path() == base.join("hardlink"), "build_info": storage.build_info_path() == base.join(".build.info"),
@@ -541,7 +563,7 @@ fn run_stor(prog: &Value, em: &Emit) {
         let r = guarded(|| {
             let mut ev2 = json!({});
             let mut open = |n: &str, ev2: &mut Value| -> Option<Arc<Installation>> {
-                match storage.open_installation(n) {
+                match storage.open_installation(&real_name(n)) {
                     Ok(h) => {
                         let id = match handles.iter().position(|x| Arc::ptr_eq(x, &h)) {
                             Some(i) => i,
@@ -623,14 +645,12 @@ fn run_stor(prog: &Value, em: &Emit) {
                 ev["panic"] = json!(m.chars().take(200).collect::<String>());
             }
         }
-        let mut list = storage.list_installations();
+        let mut list: Vec<String> = storage.list_installations().into_iter().map(|x| x.replace(&abs, "<abs>")).collect();
         list.sort();
         let mut bl = vec![];
         digest_dir(&base, Path::new(""), &mut bl);
         // only the directory skeleton two levels deep (installation dirs and their sub-directories), files as they are named
-        let mut ol = vec![];
-        digest_dir(dir.path(), Path::new(""), &mut ol);
-        let outside: Vec<String> = ol.into_iter().filter(|x| !x.starts_with("outer/base/")).collect();
+        let outside = outside_of(dir.path());
         let dirs: Vec<String> = bl.iter().filter(|x| x.ends_with('/') && x.matches('/').count() == 1).cloned().collect();
         ev["obs"] = json!({"list": list, "dirs": dirs, "outside": outside});
         em.ev(ev);
@@ -685,7 +705,7 @@ fn run_binfo(prog: &Value, em: &Emit) {
     let names = ["Branch", "Active", "Build Key", "CDN Key", "Install Key", "IM Size", "CDN Path", "CDN Hosts", "CDN Servers", "Tags", "Armadillo",
                  "Last Activated", "Version", "Product", "Nope"];
     let describe = |info: &BuildInfoFile| -> Value {
-        let opt = |o: Option<&str>| o.map_or(Value::Null, |x| json!(x));
+        let opt = |o: Option<&str>| o.map_or(json!("<none>"), |x| json!(x));
         let entry = |e: &cascette_client_storage::build_info::BuildInfoEntry| -> Value {
             let mut raw = Map::new();
             for (n, _) in &cols {
@@ -693,7 +713,7 @@ fn run_binfo(prog: &Value, em: &Emit) {
             }
             json!({"raw": raw, "nope": opt(e.get_raw("Nope")), "branch": opt(e.branch()), "active": e.is_active(), "build_key": opt(e.build_key()),
                    "cdn_key": opt(e.cdn_key()), "install_key": opt(e.install_key()),
-                   "install_size": e.install_size().map_or(Value::Null, |x| json!(clamp(x))), "cdn_path": opt(e.cdn_path()),
+                   "install_size": e.install_size().map_or(json!(-1), |x| json!(clamp(x))), "cdn_path": opt(e.cdn_path()),
                    "cdn_hosts": e.cdn_hosts(), "cdn_servers": e.cdn_servers(), "tags": opt(e.tags()), "armadillo": opt(e.armadillo()),
                    "last_activated": opt(e.last_activated()), "version": opt(e.version()), "product": opt(e.product())})
         };
@@ -702,7 +722,7 @@ fn run_binfo(prog: &Value, em: &Emit) {
             has.insert(n.to_string(), json!(info.has_column(n)));
         }
         json!({"count": info.entry_count(), "has": has, "entries": info.entries().iter().map(&entry).collect::<Vec<_>>(),
-               "active": info.active_entry().as_ref().map_or(Value::Null, &entry)})
+               "active": info.active_entry().as_ref().map_or(json!({"some": false}), |a| json!({"some": true, "e": entry(a)}))})
     };
     let r = guarded(|| {
         let parsed = if prog["from_path"] == json!(true) {
@@ -986,7 +1006,7 @@ fn run_kmt_res(prog: &Value, em: &Emit) {
         kj.insert(name.clone(), json!({"bytes": ints(&key), "bucket": ResidencyEntry::bucket_hash(&key)}));
         keys.insert(name, key);
     }
-    em.ev(json!({"op": "new", "fam": "kmt", "sub": "res", "keys": kj}));
+    em.ev(json!({"op": "new", "fam": "kmt", "sub": "res", "keys": kj, "prog_keys": prog["keys"]}));
     let mut db = ResidencyDb::new(path.clone());
     let mut fillers: Vec<[u8; 16]> = vec![];
     let mut seq = 0;
@@ -1098,7 +1118,7 @@ fn run_kmt_res(prog: &Value, em: &Emit) {
         });
         ev["obs"] = ob.unwrap_or_else(|m| json!({"panic": m}));
         if matches!(s(op, "op"), "save" | "flip") {
-            ev["file"] = std::fs::read(&path).map_or(json!(null), |b| parse_res_file(&b));
+            ev["file"] = std::fs::read(&path).map_or(json!({"absent": true}), |b| parse_res_file(&b));
         }
         em.ev(ev);
     }
@@ -1126,7 +1146,7 @@ fn run_kmt_idx(prog: &Value, em: &Emit) {
         kj.insert(name.clone(), json!({"bytes": ints(&key), "bucket": want}));
         keys.insert(name, key);
     }
-    em.ev(json!({"op": "new", "fam": "kmt", "sub": "idx", "keys": kj}));
+    em.ev(json!({"op": "new", "fam": "kmt", "sub": "idx", "keys": kj, "prog_keys": prog["keys"]}));
     let rtm = rt();
     let mut im = IndexManager::new(dir.path());
     let mut seq = 0;
@@ -1235,9 +1255,9 @@ fn random_program(rng: &mut Rng, len: usize) -> Value {
         for fd in 1..=(2 + rng.below(5)) {
             let path = if rng.chance(3, 4) {
                 let p = format!("p{}", 1 + rng.below(5));
-                if used.insert(p.clone()) { json!(p) } else { Value::Null }
+                if used.insert(p.clone()) { json!(p) } else { json!("-") }
             } else {
-                Value::Null
+                json!("-")
             };
             files.push(json!([fd, path, pn(rng)]));
         }
@@ -1276,14 +1296,28 @@ fn random_program(rng: &mut Rng, len: usize) -> Value {
             83..=84 => json!({"op": "reads_c", "ps": [pn(rng), pn(rng)]}),
             85..=88 => json!({"op": "stats"}),
             89..=91 => json!({"op": "verify"}),
-            92..=95 => json!({"op": "reopen"}),
+            92..=94 => json!({"op": "reopen"}),
+            95 => json!({"op": "reopen_raw"}),
             96..=97 => json!({"op": "corrupt", "p": pn(rng), "at": *rng.pick(&["payload", "blte", "lhdr"])}),
             98 => json!({"op": "cut", "n": 1 + rng.below(40)}),
             _ => json!({"op": "rmdata"}),
         };
         ops.push(op);
     }
-    json!({"fam": "inst", "payloads": payloads, "roots": roots, "encs": encs, "ops": ops})
+    // the path table: what each spelling denotes and which cache cell it would hit
+    let mut paths = Map::new();
+    for i in 1..=6 {
+        paths.insert(format!("p{i}"), json!({"base": format!("p{i}"), "cell": format!("P:p{i}")}));
+        paths.insert(format!("~p{i}"), json!({"base": format!("p{i}"), "cell": format!("P:~p{i}")}));
+    }
+    for i in 0..npay {
+        paths.insert(format!("@ek:q{i}"), json!({"base": "-", "cell": format!("E:q{i}")}));
+        paths.insert(format!("@ck:q{i}"), json!({"base": "-", "cell": format!("C:q{i}")}));
+    }
+    for n in 1..=7 {
+        paths.insert(format!("@fdid:{n}"), json!({"base": "-", "cell": format!("F:{n}")}));
+    }
+    json!({"fam": "inst", "payloads": payloads, "roots": roots, "encs": encs, "paths": paths, "ops": ops})
 }
 
 fn run_program(prog: &Value, em: &Emit) {
